@@ -65,6 +65,15 @@ func (i *IRCServer) cmdJoin(s *Session, reply *Replyctx, msg *irc.Message) {
 				Params:  []string{channelname, "+nt"},
 			}
 			i.channels[ChanToLower(channelname)] = c
+		} else if banned(c.bans, s.ircPrefix.String(), s.Nick+"!"+s.Username+"@"+s.RemoteAddr) {
+			// Bans come first: a solved captcha (+x) replaces the key, not
+			// the ban.
+			i.sendUser(s, reply, &irc.Message{
+				Prefix:  i.ServerPrefix,
+				Command: irc.ERR_BANNEDFROMCHAN,
+				Params:  []string{s.Nick, c.name, "Cannot join channel (+b)"},
+			})
+			continue
 		} else if c.modes['i'] && !s.invitedTo[ChanToLower(channelname)] {
 			i.sendUser(s, reply, &irc.Message{
 				Prefix:  i.ServerPrefix,
@@ -88,13 +97,6 @@ func (i *IRCServer) cmdJoin(s *Session, reply *Replyctx, msg *irc.Message) {
 				captchaChallengesSent.Inc()
 				continue
 			}
-		} else if banned(c.bans, s.ircPrefix.String(), s.Nick+"!"+s.Username+"@"+s.RemoteAddr) {
-			i.sendUser(s, reply, &irc.Message{
-				Prefix:  i.ServerPrefix,
-				Command: irc.ERR_BANNEDFROMCHAN,
-				Params:  []string{s.Nick, c.name, "Cannot join channel (+b)"},
-			})
-			continue
 		} else if c.modes['k'] && c.key != key {
 			i.sendUser(s, reply, &irc.Message{
 				Prefix:  i.ServerPrefix,
